@@ -434,13 +434,13 @@ int main(int argc, char **argv)
 		run_case(i, seed);
 	mon_printf("STAT method=%s cases=%llu posts=%llu handler_entries=%llu posts_from_threads=%llu posts_from_signal_handler=%llu posts_from_owner=%llu "
 		   "posts_from_forked_child=%llu burst_posts=%llu bursts=%llu children=%llu obligations=%llu discharged=%llu nonblocking_writes_checked=%llu "
-		   "eagain_writes=%llu failed_registers_under_fault=%llu bursts_from_handler=%llu quit_and_reenter=%llu shim_quiescences=%llu sig_deliveries=%llu injected=%llu violations=%d\n",
+		   "eagain_writes=%llu failed_registers_under_fault=%llu bursts_from_handler=%llu quit_and_reenter=%llu priority_deferrals=%llu shim_quiescences=%llu sig_deliveries=%llu injected=%llu violations=%d\n",
 		   g_method, (unsigned long long)S.cases, (unsigned long long)S.posts, (unsigned long long)S.entries,
 		   (unsigned long long)S.thread_posts, (unsigned long long)S.sig_posts, (unsigned long long)S.owner_posts,
 		   (unsigned long long)S.child_posts, (unsigned long long)S.burst_posts, (unsigned long long)S.bursts,
 		   (unsigned long long)S.children, (unsigned long long)S.obligations, (unsigned long long)S.discharged,
 		   (unsigned long long)blocking_checked, (unsigned long long)eagain_writes, (unsigned long long)failed_registers, (unsigned long long)handler_bursts, (unsigned long long)quit_reenters,
-		   (unsigned long long)vt_stats.quiescences, (unsigned long long)vt_stats.sig_deliveries,
+		   (unsigned long long)vt_stats.pct_deferrals, (unsigned long long)vt_stats.quiescences, (unsigned long long)vt_stats.sig_deliveries,
 		   (unsigned long long)vt_stats.injected, mon_viol_total);
 	mon_printf("DONE\n");
 	return 0;
